@@ -219,6 +219,174 @@ pub fn dictionary() -> &'static Vec<Vec<u8>> {
     })
 }
 
+/// set by `tpharness oracle`: the domains then also contain BIG inputs (see `big_inputs`)
+pub static ORACLE_MODE: std::sync::atomic::AtomicBool = std::sync::atomic::AtomicBool::new(false);
+
+/// inputs sized around the LARGE magic numbers of the source (257 … 2^17): one long name — plain, with
+/// its only dot early, with a dot near the end, ending in a forbidden byte, made of forbidden bytes —,
+/// one long run, one deep chain.  Only for the oracles (implementation vs specification): the model
+/// driver is not run on them.
+pub fn big_inputs(win: bool) -> Vec<Vec<u8>> {
+    let sep: u8 = if win { b'\\' } else { b'/' };
+    let head: &[u8] = if win { b"C:\\d\\" } else { b"/d/" };
+    let mut sizes: Vec<usize> = Vec::new();
+    for n in magic_numbers().iter().chain([256usize, 4096, 32768, 65536].iter()) {
+        for m in [n.saturating_sub(1), *n, n + 1] {
+            if m > 128 && m <= (1 << 17) + 1 && !sizes.contains(&m) {
+                sizes.push(m);
+            }
+        }
+    }
+    sizes.sort();
+    let mut v: Vec<Vec<u8>> = Vec::new();
+    for m in sizes {
+        let letters = |k: usize| -> Vec<u8> { (0..k).map(|i| b'a' + (i % 26) as u8).collect() };
+        let wrap = |name: Vec<u8>| -> Vec<u8> {
+            let mut x = head.to_vec();
+            x.extend_from_slice(&name);
+            x.push(sep);
+            x.push(b'f');
+            x
+        };
+        v.push(wrap(letters(m)));
+        let mut early = letters(m);
+        early[1] = b'.';
+        v.push(wrap(early.clone()));
+        let mut x = head.to_vec();
+        x.extend_from_slice(&early);
+        v.push(x); // the long dotted name LAST (file_stem / extension / set_extension look at it)
+        let mut late = letters(m);
+        late[m - 3] = b'.';
+        let mut y = head.to_vec();
+        y.extend_from_slice(&late);
+        v.push(y);
+        let mut bad = letters(m);
+        bad[m - 1] = b'|';
+        v.push(wrap(bad));
+        v.push(wrap(vec![b'?'; m]));
+        let mut run = vec![b'a'];
+        run.extend(std::iter::repeat(sep).take(m));
+        run.push(b'b');
+        v.push(run);
+    }
+    v
+}
+
+/// DEEP arguments sized around the magic numbers (and the limits of the narrow integer types): `d/` x m,
+/// and the same followed by as many / one more `..` — only for the clause that looks at them one by one
+/// (`deep-arguments` in C04): every other oracle would spend quadratic time on them
+pub fn deep_arguments(win: bool) -> Vec<Vec<u8>> {
+    let sep: u8 = if win { b'\\' } else { b'/' };
+    let mut sizes: Vec<usize> = Vec::new();
+    for n in magic_numbers().iter().chain([127usize, 255, 32767, 65535].iter()) {
+        for m in [n.saturating_sub(1), *n, n + 1, n + 2] {
+            if m >= 100 && m <= 70_000 && !sizes.contains(&m) {
+                sizes.push(m);
+            }
+        }
+    }
+    sizes.sort();
+    let mut v = Vec::new();
+    for m in sizes {
+        let mut deep: Vec<u8> = Vec::new();
+        for _ in 0..m {
+            deep.push(b'd');
+            deep.push(sep);
+        }
+        v.push(deep.clone());
+        for _ in 0..m {
+            deep.extend_from_slice(&[b'.', b'.', sep]);
+        }
+        v.push(deep.clone());
+        deep.extend_from_slice(b"..");
+        v.push(deep);
+    }
+    v
+}
+
+/// the integer literals of the library's source (gen/dict.py -> work/nums.txt, next to the dictionary)
+pub fn magic_numbers() -> &'static Vec<usize> {
+    static N: std::sync::OnceLock<Vec<usize>> = std::sync::OnceLock::new();
+    N.get_or_init(|| {
+        let mut v: Vec<usize> = Vec::new();
+        if let Ok(p) = std::env::var("VERIF_DICT") {
+            let np = std::path::Path::new(&p).with_file_name("nums.txt");
+            if let Ok(text) = std::fs::read_to_string(np) {
+                for l in text.lines() {
+                    if let Ok(n) = l.trim().parse::<usize>() {
+                        v.push(n);
+                    }
+                }
+            }
+        }
+        v
+    })
+}
+
+/// paths whose sizes sit just below, at and just above every magic number (up to `cap`): name length,
+/// extension position, component count, separator-run length, `.`-run length, total length
+pub fn magic_paths(win: bool, cap: usize) -> Vec<Vec<u8>> {
+    let sep: u8 = if win { b'\\' } else { b'/' };
+    let mut v: Vec<Vec<u8>> = Vec::new();
+    let mut sizes: Vec<usize> = Vec::new();
+    for n in magic_numbers() {
+        for m in [n.saturating_sub(1), *n, n + 1] {
+            if m >= 2 && m <= cap && !sizes.contains(&m) {
+                sizes.push(m);
+            }
+        }
+    }
+    for m in sizes {
+        let name: Vec<u8> = (0..m).map(|k| b'a' + (k % 26) as u8).collect();
+        let mut a = vec![b'd', sep];
+        a.extend_from_slice(&name);
+        v.push(a.clone());
+        if m >= 3 {
+            let mut early = name.clone();
+            early[1] = b'.';
+            let mut e0 = vec![b'd', sep];
+            e0.extend_from_slice(&early);
+            v.push(e0);
+            let mut q = vec![b'd', sep];
+            q.extend(std::iter::repeat(b'?').take(m));
+            v.push(q);
+        }
+        let mut dotted = name.clone();
+        dotted[m - 2] = b'.';
+        let mut b = vec![b'd', sep];
+        b.extend_from_slice(&dotted);
+        b.push(sep);
+        v.push(b);
+        let mut c: Vec<u8> = Vec::new();
+        for k in 0..m {
+            c.push(b'a' + (k % 26) as u8);
+            c.push(sep);
+        }
+        v.push(c);
+        let mut d = vec![b'a'];
+        d.extend(std::iter::repeat(sep).take(m));
+        d.push(b'b');
+        v.push(d);
+        let mut e2 = vec![b'a', sep];
+        for _ in 0..m {
+            e2.push(b'.');
+            e2.push(sep);
+        }
+        e2.push(b'b');
+        v.push(e2);
+        // total length exactly m, made of short components
+        let mut f: Vec<u8> = Vec::new();
+        while f.len() + 3 <= m {
+            f.extend_from_slice(&[b'x', b'y', sep]);
+        }
+        while f.len() < m {
+            f.push(b'z');
+        }
+        v.push(f);
+    }
+    v
+}
+
 /// dictionary words usable as a name / prefix payload: alphanumeric, at most 8 bytes
 pub fn dict_words() -> Vec<Vec<u8>> {
     dictionary().iter().filter(|t| t.len() <= 8 && t.iter().all(|b| b.is_ascii_alphanumeric())).cloned().collect()
@@ -410,6 +578,17 @@ fn with_extras(mut v: Vec<Vec<u8>>) -> Vec<Vec<u8>> {
     dedup_keep_order(v)
 }
 
+/// which (i, j) of a cross product to run.  Thorough tier: all of them.  Quick tier: every x with a stride
+/// sample of about `ky` of the ys, and every y with a stride sample of about `kx` of the xs — each element of
+/// either list still meets a representative sample of the other (the lists have grown to thousands of
+/// special-purpose entries; the full product is the thorough tier's job)
+pub fn cross_keep(tier: &str, nx: usize, ny: usize, kx: usize, ky: usize) -> impl Fn(usize, usize) -> bool {
+    let full = tier_is_thorough(tier) || nx * ny <= 400_000;
+    let sx = (nx / kx.max(1)).max(1);
+    let sy = (ny / ky.max(1)).max(1);
+    move |i: usize, j: usize| full || i % sx == 0 || j % sy == 0
+}
+
 pub fn tier_is_thorough(tier: &str) -> bool {
     tier == "thorough"
 }
@@ -425,6 +604,10 @@ pub fn dom_unix(tier: &str, seed: u64) -> Vec<Vec<u8>> {
     }
     for _ in 0..(if t { 3_000 } else { 300 }) {
         v.push(long_random_path(&mut rng, false));
+    }
+    v.extend(magic_paths(false, 4096));
+    if ORACLE_MODE.load(std::sync::atomic::Ordering::Relaxed) {
+        v.extend(big_inputs(false));
     }
     for c in low_byte_chars() {
         v.push(format!("/d/a{}b.x{}/", c, c).into_bytes());
@@ -451,6 +634,16 @@ pub fn dom_unix_small(tier: &str, seed: u64) -> Vec<Vec<u8>> {
     }
     for _ in 0..(if t { 60 } else { 20 }) {
         v.push(long_random_path(&mut rng, false));
+    }
+    // one component longer than 256 bytes (and than every small magic number), so that the pair generators
+    // reach prefixes / suffixes that differ from it by 256, 512 … bytes
+    {
+        let sep: u8 = if false { b'\\' } else { b'/' };
+        let mut x = vec![b'd', sep];
+        x.extend((0..600usize).map(|k| b'a' + (k % 26) as u8));
+        x.push(sep);
+        x.push(b'f');
+        v.push(x);
     }
     with_extras(v)
 }
@@ -484,6 +677,10 @@ pub fn dom_win(tier: &str, seed: u64) -> Vec<Vec<u8>> {
         v.push(long_random_path(&mut rng, true));
     }
     v.extend(dict_win_paths());
+    v.extend(magic_paths(true, 4096));
+    if ORACLE_MODE.load(std::sync::atomic::Ordering::Relaxed) {
+        v.extend(big_inputs(true));
+    }
     v.extend(marker_unc_seeds());
     for c in low_byte_chars() {
         v.push(format!("d\\a{}b.x{}", c, c).into_bytes());
@@ -513,6 +710,16 @@ pub fn dom_win_small(tier: &str, seed: u64) -> Vec<Vec<u8>> {
     }
     for _ in 0..(if t { 60 } else { 20 }) {
         v.push(long_random_path(&mut rng, true));
+    }
+    // one component longer than 256 bytes (and than every small magic number), so that the pair generators
+    // reach prefixes / suffixes that differ from it by 256, 512 … bytes
+    {
+        let sep: u8 = if true { b'\\' } else { b'/' };
+        let mut x = vec![b'd', sep];
+        x.extend((0..600usize).map(|k| b'a' + (k % 26) as u8));
+        x.push(sep);
+        x.push(b'f');
+        v.push(x);
     }
     with_extras(v)
 }
@@ -570,6 +777,11 @@ pub fn dom_args(win: bool, tier: &str, seed: u64) -> Vec<Vec<u8>> {
             updown.extend_from_slice(b"..");
             v.push(updown);
         }
+    }
+    v.extend(magic_paths(win, 1024).into_iter().filter(|x| x.len() <= 4096));
+    if ORACLE_MODE.load(std::sync::atomic::Ordering::Relaxed) {
+        // relative big arguments (the rooted head dropped)
+        v.extend(big_inputs(win).into_iter().filter(|x| x.len() <= 5000).map(|x| if win { x.strip_prefix(b"C:\\").map(|y| y.to_vec()).unwrap_or(x) } else { x.strip_prefix(b"/").map(|y| y.to_vec()).unwrap_or(x) }));
     }
     // every byte value in the FIRST position of an argument
     for b in 0..=255u8 {
